@@ -682,7 +682,9 @@ def check(ctx):
     badS += mo_bad
     for i in rawi:                                 # unmodelled family (D23): vec vs non-vec only
         if raw_differs(outs[i]):
-            badS.append(i); guard_viol[i] = [RAW_GUARD]
+            badS.append(i)
+            if cases[i].get("raw_guard"):          # only the raw witness of a recorded finding is attributed to it
+                guard_viol[i] = [cases[i]["raw_guard"]]
     loud = sum(1 for i in good if "raised" in outs[i]["vec"] or any(isinstance(r, dict) for r in outs[i]["vec"].get("ok", [])))
     ctx.note(f"E1: {len(cases)} circuits x (vectorize=True, False), {sum(len(c['states']) for c in cases)} states, "
              f"{sum(1 for c in cases if c.get('traj'))} Euler trajectories; real-vs-Impl mismatches {len(badI)}, real-vs-Spec mismatches {len(badS)} "
